@@ -123,7 +123,10 @@ class InterceptingLLUDPProxyProtocol(UDPProxyProtocol):
             AddonManager.handle_region_changed(self.session, region)
         if message.name == "RegionHandshake":
             region.cache_id = message["RegionInfo"]["CacheID"]
-            self.session.objects.track_region_objects(region.handle)
+            # Objects are keyed by region handle, nothing can be tied to a region
+            # until something has told us its handle.
+            if region.handle is not None:
+                self.session.objects.track_region_objects(region.handle)
             if self.session_manager.settings.USE_VIEWER_OBJECT_CACHE:
                 try:
                     region.objects.load_cache()
